@@ -187,6 +187,12 @@ pub fn utf16_source(cx: &mut Cx, src: &[u16], aligns: &[usize], all_dst: bool) {
                     cx.stats.evaluations += 1;
                     let mut d = D8::new(dl, fill, al);
                     let r = src16(src, al, |s| catch_unwind(AssertUnwindSafe(|| mem::convert_utf16_to_utf8_partial(s, d.dst()))));
+                    {
+                        let f = Fnv::new().s(&input);
+                        let f = match &r { Ok((rd, wr)) => f.u(*rd as u64).u(*wr as u64).bytes(&d.get()[..(*wr).min(d.len)]), Err(_) => f.s("panic") };
+                        describe(|| format!("convert_utf16_to_utf8_partial src [{}]", input));
+                        cx.stats.dig("mem/convert_utf16_to_utf8_partial", f);
+                    }
                     let (want_read, want) = oracle_utf16_partial(src, dl);
                     match r {
                         Ok((read, written)) => {
@@ -221,6 +227,12 @@ pub fn utf16_source(cx: &mut Cx, src: &[u16], aligns: &[usize], all_dst: bool) {
             let dl = src.len() * 3 + extra;
             let mut d = D8::new(dl, 0xA5, 0);
             let r = src16(src, 0, |s| catch_unwind(AssertUnwindSafe(|| mem::convert_utf16_to_utf8(s, d.dst()))));
+            {
+                let f = Fnv::new().s(&input);
+                let f = match &r { Ok(wr) => f.u(*wr as u64).bytes(&d.get()[..(*wr).min(d.len)]), Err(_) => f.s("panic") };
+                describe(|| format!("convert_utf16_to_utf8 src [{}]", input));
+                cx.stats.dig("mem/convert_utf16_to_utf8", f);
+            }
             match r {
                 Ok(w) => {
                     if !d.guards_ok() || w > dl {
@@ -249,6 +261,12 @@ pub fn utf16_source(cx: &mut Cx, src: &[u16], aligns: &[usize], all_dst: bool) {
             cx.stats.evaluations += 1;
             let mut v: Vec<u16> = src.to_vec();
             let r = catch_unwind(AssertUnwindSafe(|| mem::ensure_utf16_validity(&mut v)));
+            {
+                let f = Fnv::new().s(&input);
+                let f = match &r { Ok(()) => f.u16s(&v), Err(_) => f.s("panic") };
+                describe(|| format!("ensure_utf16_validity src [{}]", input));
+                cx.stats.dig("mem/ensure_utf16_validity", f);
+            }
             let want: Vec<u16> = lossy.encode_utf16().collect();
             match r {
                 Ok(()) => {
@@ -264,6 +282,12 @@ pub fn utf16_source(cx: &mut Cx, src: &[u16], aligns: &[usize], all_dst: bool) {
             cx.stats.evaluations += 1;
             let mut d = D8::new(src.len(), 0xA5, 0);
             let r = src16(src, 0, |s| catch_unwind(AssertUnwindSafe(|| mem::copy_basic_latin_to_ascii(s, d.dst()))));
+            {
+                let f = Fnv::new().s(&input);
+                let f = match &r { Ok(wr) => f.u(*wr as u64).bytes(&d.get()[..(*wr).min(d.len)]), Err(_) => f.s("panic") };
+                describe(|| format!("copy_basic_latin_to_ascii src [{}]", input));
+                cx.stats.dig("mem/copy_basic_latin_to_ascii", f);
+            }
             let n = src.iter().position(|&u| u >= 0x80).unwrap_or(src.len());
             match r {
                 Ok(w) => {
@@ -281,6 +305,12 @@ pub fn utf16_source(cx: &mut Cx, src: &[u16], aligns: &[usize], all_dst: bool) {
             cx.stats.evaluations += 1;
             let mut d = D8::new(src.len(), 0xA5, 0);
             let r = src16(src, 0, |s| catch_unwind(AssertUnwindSafe(|| mem::convert_utf16_to_latin1_lossy(s, d.dst()))));
+            {
+                let f = Fnv::new().s(&input);
+                let f = match &r { Ok(()) => f.bytes(d.get()), Err(_) => f.s("panic") };
+                describe(|| format!("convert_utf16_to_latin1_lossy src [{}]", input));
+                cx.stats.dig("mem/convert_utf16_to_latin1_lossy", f);
+            }
             match r {
                 Ok(()) => {
                     if !d.guards_ok() {
@@ -303,6 +333,12 @@ pub fn utf16_source(cx: &mut Cx, src: &[u16], aligns: &[usize], all_dst: bool) {
                     cx.stats.evaluations += 1;
                     let mut s = prior_str(dl, filler, lead);
                     let r = catch_unwind(AssertUnwindSafe(|| mem::convert_utf16_to_str_partial(src, &mut s)));
+                    {
+                        let f = Fnv::new().s(&input);
+                        let f = match &r { Ok((rd, wr)) => f.u(*rd as u64).u(*wr as u64).bytes(&s.as_bytes()[..(*wr).min(s.len())]), Err(_) => f.s("panic") };
+                        describe(|| format!("convert_utf16_to_str_partial src [{}]", input));
+                        cx.stats.dig("mem/convert_utf16_to_str_partial", f);
+                    }
                     let bytes = s.as_bytes().to_vec();
                     if std::str::from_utf8(&bytes).is_err() || bytes.len() != dl {
                         cx.fail("C05", "convert_utf16_to_str_partial", "destination-left-invalid", input.clone(), dl, format!("prior {:?}, result {:?}: the &mut str holds {}", prior_str(dl, filler, lead), r.as_ref().ok(), hex(&bytes)));
@@ -320,6 +356,12 @@ pub fn utf16_source(cx: &mut Cx, src: &[u16], aligns: &[usize], all_dst: bool) {
             let dl = src.len() * 3 + 2;
             let mut s = prior_str(dl, filler, 1);
             let r = catch_unwind(AssertUnwindSafe(|| mem::convert_utf16_to_str(src, &mut s)));
+            {
+                let f = Fnv::new().s(&input);
+                let f = match &r { Ok(wr) => f.u(*wr as u64).bytes(&s.as_bytes()[..(*wr).min(s.len())]), Err(_) => f.s("panic") };
+                describe(|| format!("convert_utf16_to_str src [{}]", input));
+                cx.stats.dig("mem/convert_utf16_to_str", f);
+            }
             let bytes = s.as_bytes().to_vec();
             if std::str::from_utf8(&bytes).is_err() {
                 cx.fail("C05", "convert_utf16_to_str", "destination-left-invalid", input.clone(), dl, format!("result {:?}: the &mut str holds {}", r.as_ref().ok(), hex(&bytes)));
@@ -346,6 +388,12 @@ pub fn utf8_source(cx: &mut Cx, src: &[u8], aligns: &[usize]) {
             let dl = src.len() + extra;
             let mut d = D16::new(dl, 0xA5A5, al);
             let r = src8(src, al, |s| catch_unwind(AssertUnwindSafe(|| mem::convert_utf8_to_utf16(s, d.dst()))));
+            {
+                let f = Fnv::new().s(&input);
+                let f = match &r { Ok(wr) => f.u(*wr as u64).u16s(&d.get()[..(*wr).min(d.len)]), Err(_) => f.s("panic") };
+                describe(|| format!("convert_utf8_to_utf16 src [{}]", input));
+                cx.stats.dig("mem/convert_utf8_to_utf16", f);
+            }
             match r {
                 Ok(w) => {
                     if !d.guards_ok() || w > dl {
@@ -363,6 +411,12 @@ pub fn utf8_source(cx: &mut Cx, src: &[u8], aligns: &[usize]) {
             let dl = src.len();
             let mut d = D16::new(dl, 0xA5A5, al);
             let r = src8(src, al, |s| catch_unwind(AssertUnwindSafe(|| mem::convert_utf8_to_utf16_without_replacement(s, d.dst()))));
+            {
+                let f = Fnv::new().s(&input);
+                let f = match &r { Ok(Some(wr)) => f.u(*wr as u64).u16s(&d.get()[..(*wr).min(d.len)]), Ok(None) => f.s("none"), Err(_) => f.s("panic") };
+                describe(|| format!("convert_utf8_to_utf16_without_replacement src [{}]", input));
+                cx.stats.dig("mem/convert_utf8_to_utf16_without_replacement", f);
+            }
             match r {
                 Ok(res) => {
                     if !d.guards_ok() {
@@ -388,6 +442,12 @@ pub fn utf8_source(cx: &mut Cx, src: &[u8], aligns: &[usize]) {
             let dl = src.len();
             let mut d = D16::new(dl, 0xA5A5, al);
             let r = catch_unwind(AssertUnwindSafe(|| mem::convert_str_to_utf16(s, d.dst())));
+            {
+                let f = Fnv::new().s(&input);
+                let f = match &r { Ok(wr) => f.u(*wr as u64).u16s(&d.get()[..(*wr).min(d.len)]), Err(_) => f.s("panic") };
+                describe(|| format!("convert_str_to_utf16 src [{}]", input));
+                cx.stats.dig("mem/convert_str_to_utf16", f);
+            }
             match r {
                 Ok(w) => {
                     if !d.guards_ok() || w > dl {
@@ -404,6 +464,12 @@ pub fn utf8_source(cx: &mut Cx, src: &[u8], aligns: &[usize]) {
                 let want: Vec<u8> = s.chars().map(|c| c as u32 as u8).collect();
                 let mut d = D8::new(src.len(), 0xA5, al);
                 let r = src8(src, al, |b| catch_unwind(AssertUnwindSafe(|| mem::convert_utf8_to_latin1_lossy(b, d.dst()))));
+                {
+                    let f = Fnv::new().s(&input);
+                    let f = match &r { Ok(wr) => f.u(*wr as u64).bytes(&d.get()[..(*wr).min(d.len)]), Err(_) => f.s("panic") };
+                    describe(|| format!("convert_utf8_to_latin1_lossy src [{}]", input));
+                    cx.stats.dig("mem/convert_utf8_to_latin1_lossy", f);
+                }
                 match r {
                     Ok(w) => {
                         if !d.guards_ok() || w > src.len() {
@@ -441,6 +507,12 @@ pub fn latin1_source(cx: &mut Cx, src: &[u8], aligns: &[usize], all_dst: bool) {
                 cx.stats.evaluations += 1;
                 let mut d = D8::new(dl, 0xA5, al);
                 let r = src8(src, al, |s| catch_unwind(AssertUnwindSafe(|| mem::convert_latin1_to_utf8_partial(s, d.dst()))));
+                {
+                    let f = Fnv::new().s(&input);
+                    let f = match &r { Ok((rd, wr)) => f.u(*rd as u64).u(*wr as u64).bytes(&d.get()[..(*wr).min(d.len)]), Err(_) => f.s("panic") };
+                    describe(|| format!("convert_latin1_to_utf8_partial src [{}]", input));
+                    cx.stats.dig("mem/convert_latin1_to_utf8_partial", f);
+                }
                 let (wr, want) = oracle_latin1_partial(src, dl);
                 match r {
                     Ok((read, written)) => {
@@ -460,6 +532,12 @@ pub fn latin1_source(cx: &mut Cx, src: &[u8], aligns: &[usize], all_dst: bool) {
             let dl = src.len() * 2;
             let mut d = D8::new(dl, 0xA5, al);
             let r = src8(src, al, |s| catch_unwind(AssertUnwindSafe(|| mem::convert_latin1_to_utf8(s, d.dst()))));
+            {
+                let f = Fnv::new().s(&input);
+                let f = match &r { Ok(wr) => f.u(*wr as u64).bytes(&d.get()[..(*wr).min(d.len)]), Err(_) => f.s("panic") };
+                describe(|| format!("convert_latin1_to_utf8 src [{}]", input));
+                cx.stats.dig("mem/convert_latin1_to_utf8", f);
+            }
             match r {
                 Ok(w) => {
                     if !d.guards_ok() || w > dl {
@@ -473,6 +551,12 @@ pub fn latin1_source(cx: &mut Cx, src: &[u8], aligns: &[usize], all_dst: bool) {
             // convert_latin1_to_utf16
             let mut d16 = D16::new(src.len(), 0xA5A5, al);
             let r = src8(src, al, |s| catch_unwind(AssertUnwindSafe(|| mem::convert_latin1_to_utf16(s, d16.dst()))));
+            {
+                let f = Fnv::new().s(&input);
+                let f = match &r { Ok(()) => f.u16s(d16.get()), Err(_) => f.s("panic") };
+                describe(|| format!("convert_latin1_to_utf16 src [{}]", input));
+                cx.stats.dig("mem/convert_latin1_to_utf16", f);
+            }
             match r {
                 Ok(()) => {
                     if !d16.guards_ok() {
@@ -487,6 +571,12 @@ pub fn latin1_source(cx: &mut Cx, src: &[u8], aligns: &[usize], all_dst: bool) {
             let n = src.iter().position(|&b| b >= 0x80).unwrap_or(src.len());
             let mut d = D8::new(src.len(), 0xA5, al);
             let r = src8(src, al, |s| catch_unwind(AssertUnwindSafe(|| mem::copy_ascii_to_ascii(s, d.dst()))));
+            {
+                let f = Fnv::new().s(&input);
+                let f = match &r { Ok(wr) => f.u(*wr as u64).bytes(&d.get()[..(*wr).min(d.len)]), Err(_) => f.s("panic") };
+                describe(|| format!("copy_ascii_to_ascii src [{}]", input));
+                cx.stats.dig("mem/copy_ascii_to_ascii", f);
+            }
             match r {
                 Ok(w) => {
                     if !d.guards_ok() {
@@ -499,6 +589,12 @@ pub fn latin1_source(cx: &mut Cx, src: &[u8], aligns: &[usize], all_dst: bool) {
             }
             let mut d16 = D16::new(src.len(), 0xA5A5, al);
             let r = src8(src, al, |s| catch_unwind(AssertUnwindSafe(|| mem::copy_ascii_to_basic_latin(s, d16.dst()))));
+            {
+                let f = Fnv::new().s(&input);
+                let f = match &r { Ok(wr) => f.u(*wr as u64).u16s(&d16.get()[..(*wr).min(d16.len)]), Err(_) => f.s("panic") };
+                describe(|| format!("copy_ascii_to_basic_latin src [{}]", input));
+                cx.stats.dig("mem/copy_ascii_to_basic_latin", f);
+            }
             match r {
                 Ok(w) => {
                     if !d16.guards_ok() {
@@ -554,6 +650,12 @@ pub fn latin1_source(cx: &mut Cx, src: &[u8], aligns: &[usize], all_dst: bool) {
                     cx.stats.evaluations += 1;
                     let mut s = prior_str(dl, filler, lead);
                     let r = catch_unwind(AssertUnwindSafe(|| mem::convert_latin1_to_str_partial(src, &mut s)));
+                    {
+                        let f = Fnv::new().s(&input);
+                        let f = match &r { Ok((rd, wr)) => f.u(*rd as u64).u(*wr as u64).bytes(&s.as_bytes()[..(*wr).min(s.len())]), Err(_) => f.s("panic") };
+                        describe(|| format!("convert_latin1_to_str_partial src [{}]", input));
+                        cx.stats.dig("mem/convert_latin1_to_str_partial", f);
+                    }
                     let bytes = s.as_bytes().to_vec();
                     if std::str::from_utf8(&bytes).is_err() || bytes.len() != dl {
                         cx.fail("C05", "convert_latin1_to_str_partial", "destination-left-invalid", input.clone(), dl, format!("result {:?}: the &mut str holds {}", r.as_ref().ok(), hex(&bytes)));
@@ -566,6 +668,12 @@ pub fn latin1_source(cx: &mut Cx, src: &[u8], aligns: &[usize], all_dst: bool) {
             let dl = src.len() * 2 + 3;
             let mut s = prior_str(dl, filler, 1);
             let r = catch_unwind(AssertUnwindSafe(|| mem::convert_latin1_to_str(src, &mut s)));
+            {
+                let f = Fnv::new().s(&input);
+                let f = match &r { Ok(wr) => f.u(*wr as u64).bytes(&s.as_bytes()[..(*wr).min(s.len())]), Err(_) => f.s("panic") };
+                describe(|| format!("convert_latin1_to_str src [{}]", input));
+                cx.stats.dig("mem/convert_latin1_to_str", f);
+            }
             let bytes = s.as_bytes().to_vec();
             if std::str::from_utf8(&bytes).is_err() {
                 cx.fail("C05", "convert_latin1_to_str", "destination-left-invalid", input.clone(), dl, format!("result {:?}: {}", r.as_ref().ok(), hex(&bytes)));
